@@ -41,7 +41,17 @@ class Val:
         if isinstance(e, tuple) and len(e) > 2 and e[0] == "place":
             fr = _FRAMES.get(e[2])
             if fr is not None and e[1] in fr:
-                return fr[e[1]]
+                v = fr[e[1]]
+                for f in (e[3] if len(e) > 3 else ()):
+                    n = 0
+                    while v.k == "ref" and n < 32:
+                        v = v.target()
+                        n += 1
+                    if v.k in ("adt", "tuple") and isinstance(v.v, list) and f < len(v.v):
+                        v = v.v[f]
+                    else:
+                        return self.v
+                return v
         return self.v
 
     def deref(self):
@@ -51,6 +61,81 @@ class Val:
             x = x.target()
             n += 1
         return x
+
+
+def _is_place(x):
+    return isinstance(x, tuple) and len(x) > 1 and x[0] == "place"
+
+
+def _resolve_place(extra, env):
+    """(frame, local, field path) of the storage a `&mut` place reference designates: whenever the walk meets another place
+    reference (a reborrow, a `&mut self` kept in a coroutine state or a closure capture) it continues in the owner's frame"""
+    path = list(extra[3]) if len(extra) > 3 else []
+    e = _FRAMES.get(extra[2], env) if len(extra) > 2 else env
+    l = extra[1]
+    for _ in range(64):
+        v = e.get(l, UNKNOWN)
+        i = 0
+        jumped = False
+        guard = 0
+        while guard < 256:
+            guard += 1
+            if v.k == "ref" and _is_place(v.extra):
+                x = v.extra
+                e = _FRAMES.get(x[2], e) if len(x) > 2 else e
+                l = x[1]
+                path = (list(x[3]) if len(x) > 3 else []) + path[i:]
+                jumped = True
+                break
+            if v.k == "ref":
+                v = v.v
+                continue
+            if i == len(path):
+                break
+            f = path[i]
+            if v.k in ("adt", "tuple") and isinstance(v.v, list) and f < len(v.v):
+                v = v.v[f]
+                i += 1
+            else:
+                break
+        if not jumped:
+            break
+    return e, l, path
+
+
+class _Slot:
+    """read/write access to a (frame, local, field path) place"""
+
+    def __init__(self, env, local, path):
+        self.env, self.local, self.path = env, local, path
+
+    def get(self, _k, default=None):
+        v = self.env.get(self.local, default)
+        if v is None:
+            return default
+        for f in self.path:
+            n = 0
+            while v.k == "ref" and n < 32:
+                v = v.target()
+                n += 1
+            if v.k in ("adt", "tuple") and isinstance(v.v, list) and f < len(v.v):
+                v = v.v[f]
+            else:
+                return default
+        return v
+
+    def __setitem__(self, _k, new):
+        def put(v, path):
+            if not path:
+                return new
+            if v.k == "ref":
+                return Val("ref", put(v.v, path), v.extra)
+            if v.k in ("adt", "tuple") and isinstance(v.v, list) and path[0] < len(v.v):
+                nv = list(v.v)
+                nv[path[0]] = put(nv[path[0]], path[1:])
+                return Val(v.k, nv, v.extra)
+            return v
+        self.env[self.local] = put(self.env.get(self.local, UNKNOWN), self.path)
 
 
 class Fallback(Val):
@@ -581,6 +666,19 @@ class Interp:
             return vstr(out)
         if fn == "core::hint::must_use" and args:
             return args[0]
+        if fn.startswith(("core::cmp::PartialOrd::", "core::cmp::Ord::")) and len(d) == 2 and d[0].k == d[1].k and d[0].k in ("int", "str", "char"):
+            x, y = d[0].v, d[1].v
+            if m in ("lt", "le", "gt", "ge"):
+                return vbool({"lt": x < y, "le": x <= y, "gt": x > y, "ge": x >= y}[m])
+            if m in ("partial_cmp", "cmp"):
+                o = Val("variant", "Less" if x < y else ("Greater" if x > y else "Equal"), "core::cmp::Ordering")
+                return some(o) if m == "partial_cmp" else o
+            if m in ("max", "min"):
+                return d[0] if ((x >= y) == (m == "max")) else d[1]
+        if fn == "core::cmp::Ordering::reverse" and d and d[0].k == "variant":
+            return Val("variant", {"Less": "Greater", "Greater": "Less"}.get(d[0].v, d[0].v), d[0].extra)
+        if fn in ("core::cmp::max", "core::cmp::min") and len(d) == 2 and d[0].k == d[1].k == "int":
+            return vint(max(d[0].v, d[1].v) if fn.endswith("max") else min(d[0].v, d[1].v))
         if fn in ("alloc::boxed::box_assume_init_into_vec_unsafe", "alloc::slice::<impl [T]>::into_vec") and d and d[0].k == "list":
             return d[0]
         if fn in ("alloc::string::String::new", "alloc::string::String::with_capacity"):
@@ -649,14 +747,11 @@ class Interp:
         if not args or args[0].k != "ref" or not (isinstance(args[0].extra, tuple) and args[0].extra and args[0].extra[0] == "place"):
             return None
         fn = cs.fn or ""
-        # the place may live in a caller's frame (a `&mut Vec` handed down through followed calls)
-        tgt = args[0].extra[1]
-        env = _FRAMES.get(args[0].extra[2], env) if len(args[0].extra) > 2 else env
+        # the place may live in a caller's frame (a `&mut Vec` handed down through followed calls) and may be a field of a value
+        # (`self.query_log.retain(..)`): resolved to (frame, local, field path)
+        env = _Slot(*_resolve_place(args[0].extra, env))
+        tgt = "slot"
         cur = env.get(tgt, UNKNOWN)
-        while cur.k == "ref" and isinstance(cur.extra, tuple) and cur.extra and cur.extra[0] == "place":
-            tgt = cur.extra[1]
-            env = _FRAMES.get(cur.extra[2], env) if len(cur.extra) > 2 else env
-            cur = env.get(tgt, UNKNOWN)
         if fn == "core::iter::traits::iterator::Iterator::next" and cur.k == "iter":
             if cur.v:
                 env[tgt] = Val("iter", list(cur.v[1:]))
@@ -681,6 +776,54 @@ class Interp:
             old = [x for x in cur.v if x.v[0].deref().k == k0.k and x.v[0].deref().k in ("str", "variant", "int") and x.v[0].deref().v == k0.v]
             env[tgt] = Val("list", [x for x in cur.v if x not in old] + [Val("tuple", [args[1], args[2]])], "map")
             return some(old[0].v[1]) if old else NONE_V
+        m_ = fn.rsplit("::", 1)[-1]
+        if cur.k == "list" and fn.startswith(("alloc::slice::<impl [T]>::", "core::slice::<impl [T]>::", "alloc::vec::Vec::")):
+            if m_ == "reverse":
+                env[tgt] = Val("list", list(cur.v)[::-1], cur.extra)
+                return UNIT
+            if m_ in ("clear",):
+                env[tgt] = Val("list", [], cur.extra)
+                return UNIT
+            if m_ == "retain" and len(args) > 1:
+                keep = []
+                for x in cur.v:
+                    r = self.call_closure(cs, args[1], [Val("ref", x)]).deref()
+                    if r.k != "bool":
+                        return None
+                    if r.v:
+                        keep.append(x)
+                env[tgt] = Val("list", keep, cur.extra)
+                return UNIT
+            if m_ in ("sort_by_key", "sort_unstable_by_key", "sort_by_cached_key") and len(args) > 1:
+                keys = [self.call_closure(cs, args[1], [Val("ref", x)]).deref() for x in cur.v]
+                if all(k_.k == "int" for k_ in keys) or all(k_.k == "str" for k_ in keys):
+                    order = sorted(range(len(keys)), key=lambda i_: keys[i_].v)
+                    env[tgt] = Val("list", [cur.v[i_] for i_ in order], cur.extra)
+                    return UNIT
+                if all(k_.k == "adt" and k_.extra and k_.extra[0].endswith("cmp::Reverse") and k_.v and k_.v[0].deref().k == "int" for k_ in keys):
+                    order = sorted(range(len(keys)), key=lambda i_: -keys[i_].v[0].deref().v)
+                    env[tgt] = Val("list", [cur.v[i_] for i_ in order], cur.extra)
+                    return UNIT
+                return None
+            if m_ in ("sort_by", "sort_unstable_by") and len(args) > 1:
+                import functools
+                bad = []
+
+                def cmp_(x, y):
+                    r = self.call_closure(cs, args[1], [Val("ref", x), Val("ref", y)]).deref()
+                    nm = r.v if r.k == "variant" else None
+                    if nm not in ("Less", "Equal", "Greater"):
+                        bad.append(r)
+                        return 0
+                    return {"Less": -1, "Equal": 0, "Greater": 1}[nm]
+                out_ = sorted(list(cur.v), key=functools.cmp_to_key(cmp_))
+                if bad:
+                    return None
+                env[tgt] = Val("list", out_, cur.extra)
+                return UNIT
+            if m_ in ("sort", "sort_unstable") and all(x.deref().k == "int" for x in cur.v):
+                env[tgt] = Val("list", sorted(cur.v, key=lambda x: x.deref().v), cur.extra)
+                return UNIT
         if fn == "alloc::vec::Vec::pop" and cur.k == "list":
             if cur.v:
                 env[tgt] = Val("list", list(cur.v[:-1]))
@@ -1091,8 +1234,17 @@ class Interp:
         if k == "use":
             return self.operand(env, rv["op"])
         if k == "ref":
-            if rv.get("bk") == "mut" and not [e for e in rv["place"]["p"] if e != "*"]:
-                return Val("ref", self.read_place(env, rv["place"]), ("place", rv["place"]["l"], getattr(self, "fid", 0)))
+            pp = rv["place"]["p"]
+            if rv.get("bk") == "mut" and all(e == "*" or (isinstance(e, dict) and "f" in e and "downcast" not in e) for e in pp):
+                fields = tuple(e["f"] for e in pp if isinstance(e, dict))
+                base = env.get(rv["place"]["l"], UNKNOWN)
+                if pp and pp[0] == "*" and base.k == "ref":
+                    # a reborrow `&mut *p` / `&mut (*p).f`: the new reference designates p's REFERENT (not the local p)
+                    if _is_place(base.extra):
+                        x = base.extra
+                        return Val("ref", self.read_place(env, rv["place"]), ("place", x[1], x[2] if len(x) > 2 else getattr(self, "fid", 0), tuple(x[3] if len(x) > 3 else ()) + fields))
+                    return Val("ref", self.read_place(env, rv["place"]))
+                return Val("ref", self.read_place(env, rv["place"]), ("place", rv["place"]["l"], getattr(self, "fid", 0), fields))
             return Val("ref", self.read_place(env, rv["place"]))
         if k == "discr":
             v = self.read_place(env, rv["place"]).deref()
